@@ -166,3 +166,7 @@ def contracts(tier):
     yield ("USBDevice", "utmi_bare", make(False))
     yield ("USBDevice", "utmi_std_control_ep", make(True))
     yield ("USBDevice", "ulpi_60MHz", make(False, ulpi=True))
+    # caller side: the SOF events (tokenizer.frame / new_frame, with the rest of the tokenizer record) reach every endpoint
+    from .w1_usb2_glue import device_wiring as glue, mux_wiring
+    yield ("USBEndpointMultiplexer", "wiring_3_interfaces", mux_wiring(3, ("tokenizer",)))
+    yield ("USBDevice", "wiring_utmi", glue("utmi", ("tokenizer", "state")))
